@@ -129,7 +129,7 @@ theorem sasl_after_ack (cfg : Cfg) (base s : St) (r : Reach cfg base s) (m : Msg
     (isSaslState s.fsm = true → s.saslAcked = true) ∧ (sSasl ∈ s.ack → s.saslAcked = true) := by
   have hs := (absInv_sasl cfg).reach r
   have hs' := saslQ_moves hs (ref_feedMsg (cfg := cfg) m s)
-  refine ⟨fun o ho hk => hs'.2.2 o.kind (by simp only [α, List.mem_map]; exact ⟨o, ho, rfl⟩) hk, hs.2.1, ?_⟩
+  refine ⟨fun o ho hk => hs'.2.2.1 o.kind (by simp only [α, List.mem_map]; exact ⟨o, ho, rfl⟩) hk, hs.2.1, ?_⟩
   intro h; exact hs.1 (by simpa [α] using h)
 
 example : Out.authMech ['P','L','A','I','N'] ∈ (step exCfg exS1 exAck).fast := by decide
